@@ -70,11 +70,34 @@ request, 0 otherwise) is now in flight and goes to the new task -/
 theorem roomGranted_tail {cap : Cap} {L R : Bool} (p : Pool) (m : Nat) (isMap : Bool) (hph : PhaseOK p) (hreg : RegOK p)
     (hgrp : GroupsOK p) (hlife : LifeOK p) (hpre : SlotPre cap p) (hst : Strict L R p)
     (hmap : MapMid p m (if isMap then 1 else 0)) (hlt : m < p.reqs.length) (hfl : FlushOK p) (hacc : AccAt p m PW)
-    (hnw : ∀ r, p.reqs[m]? = some r → r.frame ≠ .waitRoom) :
+    (hnw : ∀ r, p.reqs[m]? = some r → r.frame ≠ .waitRoom) (hcn : CancEx (· = m) p) (hsn : SnapNone p m) :
     Good cap L R (((if (!p.sem.value.isZero) = true then (({ p with sem := p.sem.wakeNext.1 } : Pool).schedOpt p.sem.wakeNext.2) else p).createTask m
       isMap).continueSpawner m) := by
+  have snapCreate : ∀ q : Pool, SnapNone q m → SnapNone (q.createTask m isMap) m := by
+    intro q hq r hr
+    unfold createTask at hr
+    simp only [emitRef, modReq] at hr
+    obtain ⟨x, hx, rfl⟩ := getElem?_modify_some q.reqs m m _ r hr
+    simp only [if_true]
+    exact hq x hx
   split
   · rename_i hz
+    have hcn1 : CancEx (· = m) (({ p with sem := p.sem.wakeNext.1 } : Pool).schedOpt p.sem.wakeNext.2) :=
+      (tame_schedOpt _ _).cok _ (hcn.frame (fun i x => Sem.wakeNext_own p.sem i x) (fun _ r' a => Or.inl ⟨r', a, CSame.refl r'⟩))
+    have hsn1 : SnapNone (({ p with sem := p.sem.wakeNext.1 } : Pool).schedOpt p.sem.wakeNext.2) m := by
+      intro r' hr'
+      rcases (tame_schedOpt ({ p with sem := p.sem.wakeNext.1 } : Pool) p.sem.wakeNext.2).rq m r' hr' with ⟨r, a, b⟩ | ⟨hge, _⟩
+      · cases ho : p.sem.wakeNext.2 with
+        | none => rw [ho] at hr'; exact hsn r' hr'
+        | some w =>
+          rw [ho] at hr'
+          simp only [schedOpt, schedMeta, emitRef, modReq] at hr'
+          obtain ⟨x, hx, rfl⟩ := getElem?_modify_some p.reqs w m _ r' hr'
+          split
+          · exact hsn x hx
+          · exact hsn x hx
+      · have : m < p.reqs.length := hlt
+        exact absurd hge (by simpa using this)
     have h3 := wakeNext_tasks p
     obtain ⟨r1, r2, r3, r4⟩ := wakeNext_regs p
     have hlt' : m < (({ p with sem := p.sem.wakeNext.1 } : Pool).schedOpt p.sem.wakeNext.2).reqs.length :=
@@ -98,7 +121,7 @@ theorem roomGranted_tail {cap : Cap} {L R : Bool} (p : Pool) (m : Nat) (isMap : 
         · rcases b1.fr with e | e
           · rw [e]; exact hnw r1 a1
           · rw [e]; intro x; cases x
-        · omega⟩
+        · omega, cancEx_createTask isMap hcn1 hsn1⟩ (snapCreate _ hsn1)
     · intro i tk h hn; rw [h3] at h; exact hph i tk h hn
     · cases cap with
       | fin n =>
@@ -115,7 +138,7 @@ theorem roomGranted_tail {cap : Cap} {L R : Bool} (p : Pool) (m : Nat) (isMap : 
       (mapOK_createTask isMap hmap hlt).mid m, accAt_createTask isMap hacc hlt (fun r _ hp => PW.created hp),
       by rw [reqsLen_createTask]; exact hlt, fun r' hr' => by
         obtain ⟨r0, a, b⟩ := frame_createTask _ m isMap m r' hr'
-        rw [b]; exact hnw r0 a⟩
+        rw [b]; exact hnw r0 a, cancEx_createTask isMap hcn hsn⟩ (snapCreate _ hsn)
     -- no free slot: nothing to show
     intro _ v hv hpos
     rw [hv] at hz
@@ -126,13 +149,15 @@ theorem roomGranted_tail {cap : Cap} {L R : Bool} (p : Pool) (m : Nat) (isMap : 
 theorem roomGranted_good {cap : Cap} {L R : Bool} (p : Pool) (m : Nat) (r : Req) (hph : PhaseOK p) (hreg : RegOK p)
     (hgrp : GroupsOK p) (hlife : LifeOK p) (hpre : SlotPre cap p) (hst : Strict L R p)
     (hmap : MapOK p) (hlt : m < p.reqs.length)
-    (hfr : ReqAt p m (fun x => x.frame = .waitRoom ∧ x.kind = r.kind)) (hfl : FlushOK p) (hacc : AccOK p) :
+    (hfr : ReqAt p m (fun x => x.frame = .waitRoom ∧ x.kind = r.kind)) (hfl : FlushOK p) (hacc : AccOK p)
+    (hcn : CancEx (· = m) p) (hsn : SnapNone p m) :
     Good cap L R (p.roomGranted m r) := by
   unfold roomGranted
   simp only
   refine roomGranted_tail (p.modReq m fun x => { x with frame := MFrame.running }) m (r.kind == .map) hph
     (hreg.of_eq rfl rfl rfl rfl rfl) (hgrp.of_eq rfl rfl) (hlife.of_eq rfl rfl) hpre (hst.of_eq rfl rfl) ?_ (by simpa [modReq] using hlt)
-    (hfl.frame rfl rfl (fun _ h => h)) ?_ ?_
+    (hfl.frame rfl rfl (fun _ h => h)) ?_ ?_ (hcn.modReqSelf _ (fun _ _ => ⟨rfl, Or.inl ⟨rfl, rfl⟩⟩))
+    (ReqAt.modReq hsn _ (fun _ hx => hx))
   rotate_left
   · -- the books of a spawner that was suspended in `_start_task`
     refine (hacc.atReq m).modReq _ (fun _ => rfl) ?_
@@ -231,11 +256,14 @@ theorem roomWaitCancelled_good {cap : Cap} {L R : Bool} (p : Pool) (m : Nat) (r 
     (hreg : RegOK p) (hgrp : GroupsOK p) (hlife : LifeOK p) (hsg : SlotGrant cap p st) (hst' : Strict L R p)
     (hmap : MapOK p) (hlt : m < p.reqs.length)
     (hfr : ReqAt p m (fun x => x.frame = .waitRoom ∧ x.kind = r.kind ∧ x.acquired = r.acquired)) (hfl : FlushOK p)
-    (hwk : st ≠ some .granted → WakeOK p) (hacc : AccOK p) :
+    (hwk : st ≠ some .granted → WakeOK p) (hacc : AccOK p) (hcn : CancEx (· = m) p) :
     Good cap L R (p.roomWaitCancelled m r st) := by
   unfold roomWaitCancelled
   simp only
-  have key : Good cap L R (if (st == some WaitSt.granted) = true then p.releasePool else p) ∧
+  have key : (Good0 cap L R (if (st == some WaitSt.granted) = true then p.releasePool else p) ∧
+      MapOK (if (st == some WaitSt.granted) = true then p.releasePool else p) ∧
+      AccOK (if (st == some WaitSt.granted) = true then p.releasePool else p) ∧
+      CancEx (· = m) (if (st == some WaitSt.granted) = true then p.releasePool else p)) ∧
       ReqAt (if (st == some WaitSt.granted) = true then p.releasePool else p) m
         (fun x => x.frame = .waitRoom ∧ x.kind = r.kind ∧ x.acquired = r.acquired) ∧
       m < (if (st == some WaitSt.granted) = true then p.releasePool else p).reqs.length := by
@@ -248,7 +276,7 @@ theorem roomWaitCancelled_good {cap : Cap} {L R : Bool} (p : Pool) (m : Nat) (r 
         hfl.frame (releasePool_gathers p) (releasePool_apis p) (fun t ⟨tk, a, b⟩ => ⟨tk, by rw [h3]; exact a, b⟩),
         wakeOK_releasePool p,
         (hst'.of_eq r4 (releasePool_apis p) (releasePool_resized p)).rz, (hst'.of_eq r4 (releasePool_apis p) (releasePool_resized p)).ll, (hst'.of_eq r4 (releasePool_apis p) (releasePool_resized p)).al⟩,
-        (mapFrame_releasePool p).map hmap, (mapFrame_releasePool p).acc hacc⟩, reqAt_releasePool hfr (fun _ h => h),
+        (mapFrame_releasePool p).map hmap, (mapFrame_releasePool p).acc hacc, cancOK_releasePool p hcn⟩, reqAt_releasePool hfr (fun _ h => h),
         Nat.lt_of_lt_of_le hlt (mapFrame_releasePool p).rql⟩
       · cases cap with
         | fin n =>
@@ -260,28 +288,31 @@ theorem roomWaitCancelled_good {cap : Cap} {L R : Bool} (p : Pool) (m : Nat) (r 
       · intro i tk h hn; rw [h3] at h; exact hph i tk h hn
     · rename_i h
       have hst : ¬ st = some .granted := by simpa using h
-      refine ⟨⟨⟨?_, hph, hreg, hgrp, hlife, hfl, hwk hst, hst'.rz, hst'.ll, hst'.al⟩, hmap, hacc⟩, hfr, hlt⟩
+      refine ⟨⟨⟨?_, hph, hreg, hgrp, hlife, hfl, hwk hst, hst'.rz, hst'.ll, hst'.al⟩, hmap, hacc, hcn⟩, hfr, hlt⟩
       cases cap with
       | fin n =>
         obtain ⟨v, hv, hs⟩ := hsg
         exact ⟨v, hv, by simp [hst] at hs; omega⟩
       | inf => exact hsg
-  obtain ⟨kg, kat, klt⟩ := key
+  obtain ⟨⟨k0, kmap, kacc, kcn⟩, kat, klt⟩ := key
   split
   · rename_i hc
     have hkm : r.kind = .map ∧ r.acquired = true := by simpa using hc
-    refine ⟨(Tame0.trans (tame0_releaseMap _ m) (tame_finishMeta _ m _).toTame0).good0 kg.toGood0, ?_,
-      ((accFrame_releaseMap _ m).trans (tame_finishMeta _ m _).accFrame).acc kg.acc⟩
-    refine mapOK_finishMeta_carried _ (mapMid_releaseMap (k := -1) (kg.map.mid m) klt) ?_
+    refine ⟨(Tame0.trans (tame0_releaseMap _ m) (tame_finishMeta _ m _).toTame0).good0 k0, ?_,
+      ((accFrame_releaseMap _ m).trans (tame_finishMeta _ m _).accFrame).acc kacc,
+      CancEx.close ((tame_finishMeta _ m _).cok _ (cancOK_releaseMap _ m kcn)) (fun x _ _ hx _ => Or.inl (finishMeta_frame _ m _ x hx))⟩
+    refine mapOK_finishMeta_carried _ (mapMid_releaseMap (k := -1) (kmap.mid m) klt) ?_
     refine reqAt_releaseMap ?_ (fun _ h => h) (fun _ _ h => h)
     intro x hx
     obtain ⟨a, b, c⟩ := kat x hx
     simp [Req.pend, a, b.trans hkm.1, c.trans hkm.2]
-  · exact (tame_finishMeta _ m _).good kg
+  · exact ⟨(tame_finishMeta _ m _).toTame0.good0 k0, (tame_finishMeta _ m _).map kmap, (tame_finishMeta _ m _).acc kacc,
+      CancEx.close ((tame_finishMeta _ m _).cok _ kcn) (fun x _ _ hx _ => Or.inl (finishMeta_frame _ m _ x hx))⟩
 
 theorem good_wakeWaitRoom {cap : Cap} {L R : Bool} (p : Pool) (m : Nat) (r : Req) (hg : Good cap L R p)
     (hlt : m < p.reqs.length)
-    (hfr : ReqAt p m (fun x => x.frame = .waitRoom ∧ x.kind = r.kind ∧ x.acquired = r.acquired)) :
+    (hfr : ReqAt p m (fun x => x.frame = .waitRoom ∧ x.kind = r.kind ∧ x.acquired = r.acquired))
+    (hmc : ReqAt p m (fun x => x.mustCancel = r.mustCancel)) :
     Good cap L R (p.wakeWaitRoom m r) := by
   unfold wakeWaitRoom
   simp only
@@ -299,17 +330,48 @@ theorem good_wakeWaitRoom {cap : Cap} {L R : Bool} (p : Pool) (m : Nat) (r : Req
       fun x => { x with mustCancel := false }) := hg.strict.of_eq rfl rfl
   have hmp : MapOK (({ p with sem := { p.sem with waiters := (removeWaiterL m p.sem.waiters).2 } } : Pool).modReq m
       fun x => { x with mustCancel := false }) :=
-    (tame_modReq _ m _).map (hg.map.of_eq rfl rfl)
+    (mapFrame_modReq _ m _).map (hg.map.of_eq rfl rfl)
   have hfl : FlushOK (({ p with sem := { p.sem with waiters := (removeWaiterL m p.sem.waiters).2 } } : Pool).modReq m
       fun x => { x with mustCancel := false }) := hg.fl.frame rfl rfl (fun _ h => h)
   have hac : AccOK (({ p with sem := { p.sem with waiters := (removeWaiterL m p.sem.waiters).2 } } : Pool).modReq m
       fun x => { x with mustCancel := false }) :=
-    (tame_modReq _ m _).acc (hg.acc.of_eq rfl rfl)
+    (mapFrame_modReq _ m _).acc (hg.acc.of_eq rfl rfl)
   have hlt2 : m < (({ p with sem := { p.sem with waiters := (removeWaiterL m p.sem.waiters).2 } } : Pool).modReq m
       fun x => { x with mustCancel := false }).reqs.length := by simpa [modReq] using hlt
   have hfr2 : ReqAt (({ p with sem := { p.sem with waiters := (removeWaiterL m p.sem.waiters).2 } } : Pool).modReq m
       fun x => { x with mustCancel := false }) m (fun x => x.frame = .waitRoom ∧ x.kind = r.kind ∧ x.acquired = r.acquired) :=
     ReqAt.modReq (p := ({ p with sem := { p.sem with waiters := (removeWaiterL m p.sem.waiters).2 } } : Pool)) hfr _ (fun _ h => h)
+  -- cancelled spawners: everybody else's waiter entry stays, `m` itself is exempt while it runs
+  have hcn2 : CancEx (· = m) (({ p with sem := { p.sem with waiters := (removeWaiterL m p.sem.waiters).2 } } : Pool).modReq m
+      fun x => { x with mustCancel := false }) := by
+    refine (hg.canc.ex (· = m)).frameAt (fun i hne x => ownCancelled_remove m i _ (fun e => hne e.symm) x) ?_
+    intro i r' h'
+    simp only [modReq] at h'
+    obtain ⟨x, hx, rfl⟩ := getElem?_modify_some p.reqs m i _ r' h'
+    refine Or.inl ⟨x, hx, ?_⟩
+    split
+    · rename_i e; exact Or.inr ⟨e.symm, rfl, rfl, rfl⟩
+    · rename_i e; exact Or.inl ⟨fun e' => e e'.symm, CSame.refl x⟩
+  -- if the wake-up was not a cancellation, the spawner has never been cancelled while it waited
+  have hsn2 : ¬ ((removeWaiterL m p.sem.waiters).1 = some .cancelled ∨ r.mustCancel = true) → r.sched = r.sched →
+      ReqAt p m (fun x => x.mustCancel = r.mustCancel) →
+      SnapNone (({ p with sem := { p.sem with waiters := (removeWaiterL m p.sem.waiters).2 } } : Pool).modReq m
+        fun x => { x with mustCancel := false }) m := by
+    intro hnc _ hmc
+    refine ReqAt.modReq (p := ({ p with sem := { p.sem with waiters := (removeWaiterL m p.sem.waiters).2 } } : Pool)) ?_ _ (fun _ hx => hx)
+    intro x hx
+    cases hs : x.cancelSnap with
+    | none => rfl
+    | some cu =>
+      exfalso
+      obtain ⟨_, _, hd⟩ := hg.canc m x cu.1 cu.2 hx (by rw [hs])
+      have hfx := (hfr x hx).1
+      rcases hd with hd | hd | hd | ⟨hd, hd2⟩ | ⟨hd, _⟩
+      · exact hd
+      · rw [hfx] at hd; cases hd
+      · exact hnc (Or.inr (by rw [← hmc x hx]; exact hd))
+      · exact hnc (Or.inl hd2)
+      · rw [hfx] at hd; cases hd
   -- without a granted slot in the removed entry the invariant carries over (fewer waiters, same grants)
   have hwk : (removeWaiterL m p.sem.waiters).1 ≠ some .granted →
       WakeOK (({ p with sem := { p.sem with waiters := (removeWaiterL m p.sem.waiters).2 } } : Pool).modReq m
@@ -321,7 +383,7 @@ theorem good_wakeWaitRoom {cap : Cap} {L R : Bool} (p : Pool) (m : Nat) (r : Req
       simp [hng] at hrm; omega
     exact hg.wk a v b c hgr w (hsub w hw)
   split
-  · refine roomWaitCancelled_good _ m r _ hph hreg hgrp hlife ?_ hstr hmp hlt2 hfr2 hfl hwk hac
+  · refine roomWaitCancelled_good _ m r _ hph hreg hgrp hlife ?_ hstr hmp hlt2 hfr2 hfl hwk hac hcn2
     cases cap with
     | fin n =>
       obtain ⟨v, hv, hs⟩ := hg.slot
@@ -329,10 +391,14 @@ theorem good_wakeWaitRoom {cap : Cap} {L R : Bool} (p : Pool) (m : Nat) (r : Req
     | inf =>
       obtain ⟨hv, hw⟩ := hg.slot
       exact ⟨hv, by simp [modReq, hw, removeWaiterL]⟩
-  · split
+  · rename_i hnc0
+    have hnc : ¬ ((removeWaiterL m p.sem.waiters).1 = some .cancelled ∨ r.mustCancel = true) := by
+      simpa using hnc0
+    split
     · rename_i hgr
       have hst : (removeWaiterL m p.sem.waiters).1 = some .granted := by simpa using hgr
       refine roomGranted_good _ m r hph hreg hgrp hlife ?_ hstr hmp hlt2 (fun x hx => ⟨(hfr2 x hx).1, (hfr2 x hx).2.1⟩) hfl hac
+        hcn2 (hsn2 hnc rfl hmc)
       cases cap with
       | fin n =>
         obtain ⟨v, hv, hs⟩ := hg.slot
@@ -340,9 +406,10 @@ theorem good_wakeWaitRoom {cap : Cap} {L R : Bool} (p : Pool) (m : Nat) (r : Req
       | inf =>
       obtain ⟨hv, hw⟩ := hg.slot
       exact ⟨hv, by simp [modReq, hw, removeWaiterL]⟩
-    · rename_i hc hgr
+    · rename_i hgr
       have hst : ¬ (removeWaiterL m p.sem.waiters).1 = some .granted := by simpa using hgr
-      refine ⟨⟨?_, hph, hreg, hgrp, hlife, hfl, hwk hst, hstr.rz, hstr.ll, hstr.al⟩, hmp, hac⟩
+      refine ⟨⟨?_, hph, hreg, hgrp, hlife, hfl, hwk hst, hstr.rz, hstr.ll, hstr.al⟩, hmp, hac,
+        hcn2.close (hsn2 hnc rfl hmc).hcm⟩
       cases cap with
       | fin n =>
         obtain ⟨v, hv, hs⟩ := hg.slot
@@ -354,7 +421,7 @@ theorem good_wakeWaitRoom {cap : Cap} {L R : Bool} (p : Pool) (m : Nat) (r : Req
 /-- the call's own semaphore handed the spawner a slot: it is in flight until the task is created or the spawner
 starts waiting for room; one element is in hand -/
 theorem good_mapSemGranted {cap : Cap} {L R : Bool} (p : Pool) (m : Nat) (r : Req)
-    (h : SpSt cap L R p m 1 (PM r.items.length 1)) : Good cap L R (p.mapSemGranted m r) := by
+    (h : SpSt cap L R p m 1 (PM r.items.length 1)) (hsn : SnapNone p m) : Good cap L R (p.mapSemGranted m r) := by
   unfold mapSemGranted
   simp only
   have h1 : SpSt cap L R (p.modReq m fun x => { x with acquired := true, frame := MFrame.running }) m 1 (PM r.items.length 1) := by
@@ -362,11 +429,14 @@ theorem good_mapSemGranted {cap : Cap} {L R : Bool} (p : Pool) (m : Nat) (r : Re
       (fun x _ hp => hp)
   have hacq : ReqAt (p.modReq m fun x => { x with acquired := true, frame := MFrame.running }) m (fun r => r.acquired = true) :=
     reqAt_modReq_new _ m _ _ (fun _ => rfl)
+  have hsn1 : SnapNone (p.modReq m fun x => { x with acquired := true, frame := MFrame.running }) m :=
+    ReqAt.modReq hsn _ (fun _ hx => hx)
   split
   · rename_i hb
-    exact good_mapLoop m _ _ (spSt_mapStartTask _ m _ h1 hb)
+    obtain ⟨h2, hsn2⟩ := spSt_mapStartTask _ m _ h1 hsn1 hb
+    exact good_mapLoop m _ _ h2 hsn2
   · rename_i hb
-    exact good_mapStartTask _ m _ h1 hacq (by simpa using hb)
+    exact good_mapStartTask _ m _ h1 hacq hsn1 (by simpa using hb)
 
 /-- `_wake_up_next` keeps `value + grants` when the counter is positive -/
 theorem _root_.Taskpool.Sem.wakeNext_effect (s : Sem) (v : Nat) (hv : s.value = .fin v) (hpos : 0 < v) :
@@ -442,7 +512,8 @@ theorem mapWake_facts (s : Sem) (m : Nat) (c : Bool) (v : Nat) (hv : s.value = .
 
 theorem good_wakeWaitMapSem {cap : Cap} {L R : Bool} (p : Pool) (m : Nat) (r : Req) (hg : Good cap L R p)
     (hlt : m < p.reqs.length)
-    (hat : ReqAt p m (fun x => x.mapSem = r.mapSem ∧ x.frame = .waitMapSem ∧ x.items.length = r.items.length ∧ x.kind = r.kind)) :
+    (hat : ReqAt p m (fun x => x.mapSem = r.mapSem ∧ x.frame = .waitMapSem ∧ x.items.length = r.items.length ∧ x.kind = r.kind))
+    (hmc : ReqAt p m (fun x => x.mustCancel = r.mustCancel)) :
     Good cap L R (p.wakeWaitMapSem m r) := by
   unfold wakeWaitMapSem
   simp only
@@ -477,6 +548,26 @@ theorem good_wakeWaitMapSem {cap : Cap} {L R : Bool} (p : Pool) (m : Nat) (r : R
     · intro x hx hp
       have := hat x hx
       exact ⟨hp, this.2.1, this.2.2.1⟩
+  -- if the wake-up was not a cancellation, the spawner has never been cancelled while it waited
+  have hsnF : c = false → SnapNone ((p.modReq m fun x => { x with mapSem := s2.1, mustCancel := false }).schedOpt s2.2) m := by
+    intro hcf
+    rw [hcf] at hc
+    simp only [Bool.or_eq_false_iff, beq_eq_false_iff_ne, ne_eq] at hc
+    suffices a : SnapNone p m from
+      reqAt_schedOpt (ReqAt.modReq a (fun x => { x with mapSem := s2.1, mustCancel := false }) (fun _ hx => hx)) _ (fun _ hx => hx)
+    intro x hx
+    cases hs : x.cancelSnap with
+    | none => rfl
+    | some cu =>
+      exfalso
+      obtain ⟨_, _, hd⟩ := hg.canc m x cu.1 cu.2 hx (by rw [hs])
+      have hfx := (hat x hx).2.1
+      rcases hd with hd | hd | hd | ⟨hd, _⟩ | ⟨_, hd2⟩
+      · exact hd
+      · rw [hfx] at hd; cases hd
+      · rw [hmc x hx, hc.2] at hd; cases hd
+      · rw [hfx] at hd; cases hd
+      · rw [(hat x hx).1] at hd2; exact hc.1 hd2
   cases c with
   | true =>
     -- cancelled while waiting for its own semaphore: a granted slot went back inside `acquire()`, the spawner ends
@@ -488,7 +579,7 @@ theorem good_wakeWaitMapSem {cap : Cap} {L R : Bool} (p : Pool) (m : Nat) (r : R
     split
     · rename_i hgr
       simp only [hgr, Bool.not_false, Bool.and_true, if_true] at h0
-      refine good_mapSemGranted _ m r (h0.weaken ?_)
+      refine good_mapSemGranted _ m r (h0.weaken ?_) (hsnF rfl)
       intro c fr hp
       -- suspended on its own semaphore: a map request with one element in hand
       obtain ⟨ha, hf, hl⟩ := hp
@@ -502,7 +593,7 @@ theorem good_wakeWaitMapSem {cap : Cap} {L R : Bool} (p : Pool) (m : Nat) (r : R
     · rename_i hgr
       have : ((removeWaiterL m r.mapSem.waiters).1 == some WaitSt.granted) = false := by simpa using hgr
       simp only [this, Bool.false_and, Bool.false_eq_true, if_false] at h0
-      exact h0.good rfl (fun c fr x => x.1)
+      exact h0.good rfl (fun c fr x => x.1) (hsnF rfl).hcm
 
 theorem good_stepMeta {cap : Cap} {L R : Bool} (p : Pool) (m : Nat) (hg : Good cap L R p) : Good cap L R (p.stepMeta m) := by
   unfold stepMeta
@@ -528,10 +619,26 @@ theorem good_stepMeta {cap : Cap} {L R : Bool} (p : Pool) (m : Nat) (hg : Good c
         unfold stepMetaNotStarted
         split
         · exact (tame_finishMeta _ m _).good hg0
-        · split
+        · rename_i hnm
+          -- not cancelled before it began: no snapshot
+          have hsn : SnapNone (p.modReq m fun x => { x with sched := false }) m := by
+            intro x hx
+            have e := hat (fun y => y.frame = r.frame ∧ y.mustCancel = r.mustCancel) ⟨rfl, rfl⟩ x hx
+            cases hs : x.cancelSnap with
+            | none => rfl
+            | some cu =>
+              exfalso
+              obtain ⟨_, _, hd⟩ := hg0.canc m x cu.1 cu.2 hx (by rw [hs])
+              rcases hd with hd | hd | hd | ⟨hd, _⟩ | ⟨hd, _⟩
+              · exact hd
+              · rw [e.1, hf] at hd; cases hd
+              · rw [e.2] at hd; exact hnm hd
+              · rw [e.1, hf] at hd; cases hd
+              · rw [e.1, hf] at hd; cases hd
+          split
           · rename_i hk
             refine good_applyLoop m _ _ ⟨hg0.toGood0, hg0.map.mid m, ⟨hg0.acc.ref, hg0.acc.tk, fun m' r' a _ => hg0.acc.rq m' r' a, ?_⟩, hlt0,
-              fun x hx => by have e := hat (fun y => y.frame = r.frame) rfl x hx; rw [e, hf]; intro c; cases c⟩
+              (fun x hx => by have e := hat (fun y => y.frame = r.frame) rfl x hx; rw [e, hf]; intro c; cases c), hg0.canc.ex _⟩ hsn
             · intro x hx
               have e := hat (fun y => y.kind = r.kind ∧ y.remaining = r.remaining) ⟨rfl, rfl⟩ x hx
               have ha := hg0.acc.rq m x hx
@@ -541,7 +648,7 @@ theorem good_stepMeta {cap : Cap} {L R : Bool} (p : Pool) (m : Nat) (hg : Good c
               exact ⟨hka, by show x.created + x.skipped + r.remaining = x.n0; rw [← e.2]; omega⟩
           · rename_i hk
             refine good_mapLoop m _ _ ⟨hg0.toGood0, hg0.map.mid m, ⟨hg0.acc.ref, hg0.acc.tk, fun m' r' a _ => hg0.acc.rq m' r' a, ?_⟩, hlt0,
-              fun x hx => by have e := hat (fun y => y.frame = r.frame) rfl x hx; rw [e, hf]; intro c; cases c⟩
+              (fun x hx => by have e := hat (fun y => y.frame = r.frame) rfl x hx; rw [e, hf]; intro c; cases c), hg0.canc.ex _⟩ hsn
             intro x hx
             have e := hat (fun y => y.kind = r.kind ∧ y.items = r.items ∧ y.frame = r.frame) ⟨rfl, rfl, rfl⟩ x hx
             have ha := hg0.acc.rq m x hx
@@ -550,9 +657,9 @@ theorem good_stepMeta {cap : Cap} {L R : Bool} (p : Pool) (m : Nat) (hg : Good c
             obtain ⟨a, b, c, d, f⟩ := ha.2 hkm
             exact ⟨hkm, a, by have := f (e.2.2.trans hf); omega, by show x.items.length = r.items.length; rw [e.2.1]⟩
       · rename_i hf
-        exact good_wakeWaitRoom _ m r hg0 hlt0 (hat _ ⟨hf, rfl, rfl⟩)
+        exact good_wakeWaitRoom _ m r hg0 hlt0 (hat _ ⟨hf, rfl, rfl⟩) (hat _ rfl)
       · rename_i hf
-        exact good_wakeWaitMapSem _ m r hg0 hlt0 (hat _ ⟨rfl, hf, rfl, rfl⟩)
+        exact good_wakeWaitMapSem _ m r hg0 hlt0 (hat _ ⟨rfl, hf, rfl, rfl⟩) (hat _ rfl)
 
 /-! ### gather, flush, gather_and_close, until_closed: no slot moves -/
 
@@ -627,7 +734,7 @@ theorem tame_gatherScan (g : Nat) (cs : List Child) (i : Nat) (p : Pool) : Tame 
 theorem tame_addGather (p : Pool) (G : Gather) (amb : Bool) (hG : G.outer = some .ok → G.children = []) :
     Tame p ({ p with gathers := p.gathers ++ [G], ambiguous := amb } : Pool) := by
   refine ⟨⟨rfl, rfl, rfl, rfl, rfl, rfl, rfl, fun h => h, List.Sublist.refl _, fun _ tk' h => ⟨tk', h, rfl⟩, rfl, ?_,
-    fun h => h.of_eq rfl rfl, rfl⟩, Nat.le_refl _, fun _ r' h => Or.inl ⟨r', h, MSigLe.refl r'⟩⟩
+    fun h => h.of_eq rfl rfl, rfl⟩, Nat.le_refl _, fun _ r' h => Or.inl ⟨r', h, MSigLe.refl r'⟩, fun _ h => h.of_eq rfl rfl⟩
   intro h
   refine ⟨?_, ?_⟩
   · intro g G' hg hok t ht
@@ -730,7 +837,7 @@ theorem good_flushAfter2 {cap : Cap} {L R : Bool} (p : Pool) (a o) (hg : Good ca
     refine ⟨⟨hg.slot, hg.phase, ?_, hg.grp.of_eq rfl rfl, hg.life.lostMono rfl (fun h => by simp [h]),
       hg.fl.frame rfl rfl (fun _ h => h), hg.wk.of_eq rfl rfl, hg.rz,
       fun h => by show (p.lost || _) = false; rw [hg.ll h, hnone (hg.ll h)]; rfl, hg.al⟩, hg.map.of_eq rfl rfl,
-      hg.acc.of_eq rfl rfl⟩
+      hg.acc.of_eq rfl rfl, hg.canc.of_eq rfl rfl⟩
     exact hg.reg.flushForget _ _ _ rfl rfl rfl rfl (by simp)
   · exact (tame_finishApi p a _).good hg
 
@@ -794,7 +901,7 @@ theorem good_flushAfter1 {cap : Cap} {L R : Bool} (p : Pool) (a re o) (hg : Good
   · exact (tame_finishApi p a _).good hg
   · simp only
     have h1 : Tame p ({ p with metaCancelled := [], reqs := p.reqs.map fun (r : Req) => { r with inCancelled := false } } : Pool) :=
-      tame_of_map _ _ _ rfl rfl rfl (fun x => ⟨rfl, rfl, rfl, Nat.le_refl _, fun h => h, rfl, Or.inl rfl, fun h => h, fun h => h, fun _ => Nat.le_refl _⟩)
+      tame_of_map _ _ _ rfl rfl rfl (fun x => ⟨rfl, rfl, rfl, Nat.le_refl _, fun h => h, rfl, Or.inl rfl, fun h => h, fun h => h, fun _ => rfl, fun _ => Nat.le_refl _⟩)
     have h2 := tame_modApi ({ p with metaCancelled := [], reqs := p.reqs.map fun (r : Req) => { r with inCancelled := false } } : Pool) a
       (fun x => { x with snapE := p.ended, snapC := p.cancelledR }) (fun _ => rfl)
       (fun x hx g h => absurd h ((hfr x hx).1 g))
@@ -811,7 +918,7 @@ theorem good_flushStage1 {cap : Cap} {L R : Bool} (p : Pool) (a re) (hg : Good c
   unfold flushStage1
   simp only
   have h1 : Tame p ({ p with reqs := p.reqs.map fun (r : Req) => if r.inRunning && r.outcome.isSome then { r with inRunning := false } else r } : Pool) :=
-    tame_of_map _ _ _ rfl rfl rfl (fun x => by split <;> exact ⟨rfl, rfl, rfl, Nat.le_refl _, fun h => h, rfl, Or.inl rfl, fun h => h, fun h => h, fun _ => Nat.le_refl _⟩)
+    tame_of_map _ _ _ rfl rfl rfl (fun x => by split <;> exact ⟨rfl, rfl, rfl, Nat.le_refl _, fun h => h, rfl, Or.inl rfl, fun h => h, fun h => h, fun _ => rfl, fun _ => Nat.le_refl _⟩)
   split
   · refine good_flushAfter1 _ a re _ ((Tame.trans h1 (tame_gatherStart _ _ _ _ _)).good hg) ?_
     intro x hx
@@ -828,7 +935,7 @@ theorem good_gacAfter2 {cap : Cap} (p : Pool) (a o) (hg : Good cap true R p) : G
     exact ⟨⟨hg.slot, hg.phase, hg.reg.gacClear _ rfl rfl rfl rfl rfl, hg.grp.of_eq rfl rfl,
       hg.life.lostMono rfl (fun h => by simp [h]), hg.fl.frame rfl rfl (fun _ h => h), hg.wk.of_eq rfl rfl, hg.rz,
       fun h => Bool.noConfusion h, fun h => Bool.noConfusion h⟩,
-      hg.map.of_eq rfl rfl, hg.acc.of_eq rfl rfl⟩
+      hg.map.of_eq rfl rfl, hg.acc.of_eq rfl rfl, hg.canc.of_eq rfl rfl⟩
   · exact (tame_finishApi p a _).good hg
 
 /-- putting a `gather_and_close` call into its second gather: nothing to show for its snapshot -/
@@ -855,7 +962,7 @@ theorem good_gacAfter1 {cap : Cap} (p : Pool) (a re g) (hg : Good cap true R p)
   split
   · exact (tame_finishApi p a _).good hg
   · have h1 : Tame p ({ p with metaCancelled := [], reqs := p.reqs.map fun (r : Req) => { r with inCancelled := false, inRunning := false } } : Pool) :=
-      tame_of_map _ _ _ rfl rfl rfl (fun x => ⟨rfl, rfl, rfl, Nat.le_refl _, fun h => h, rfl, Or.inl rfl, fun h => h, fun h => h, fun _ => Nat.le_refl _⟩)
+      tame_of_map _ _ _ rfl rfl rfl (fun x => ⟨rfl, rfl, rfl, Nat.le_refl _, fun h => h, rfl, Or.inl rfl, fun h => h, fun h => h, fun _ => rfl, fun _ => Nat.le_refl _⟩)
     split
     · exact good_gacAfter2 _ a _ ((Tame.trans h1 (tame_gatherStart _ _ _ _ _)).good hg)
     · refine (Tame.trans (Tame.trans h1 (tame_gatherStart _ _ _ _ _)) (tame_gacGather2 _ a _ ?_)).good hg
@@ -961,7 +1068,7 @@ theorem good_runRef {cap : Cap} {L R : Bool} (p : Pool) (r : Ref) (hg : Good cap
 theorem good_addApi {cap : Cap} {L R : Bool} (p : Pool) (k : ApiKind) (hg : Good cap L R p) (hk : L = false → k.isGac = false) :
     Good cap L R (p.addApi k) := by
   refine ⟨⟨hg.slot, hg.phase, hg.reg.of_eq rfl rfl rfl rfl rfl, hg.grp.of_eq rfl rfl, hg.life.of_eq rfl rfl, ?_,
-    hg.wk.of_eq rfl rfl, hg.rz, hg.ll, ?_⟩, hg.map.of_eq rfl rfl, hg.acc.of_eq rfl rfl⟩
+    hg.wk.of_eq rfl rfl, hg.rz, hg.ll, ?_⟩, hg.map.of_eq rfl rfl, hg.acc.of_eq rfl rfl, hg.canc.of_eq rfl rfl⟩
   · refine ⟨hg.fl.gth, ?_⟩
     intro a A g ha hfr hkind
     have ha' : (p.apis ++ [{ kind := k, frame := AFrame.notStarted, sched := true, outcome := none }])[a]? = some A := ha
